@@ -290,6 +290,32 @@ def _closure_of(body, local):
     return hit[0] if len(hit) == 1 else None
 
 
+def _closure_root(body, local):
+    """(path, local holding the literal) of the closure that `local` holds, following plain moves of a once-assigned
+    closure value (`let f = |..| ..; helper(f)` after the helper has been inlined: param = move f)"""
+    for _ in range(4):
+        p = _closure_of(body, local)
+        if p is not None:
+            return p, local
+        defs = []
+        for blk in body.blocks:
+            if blk['cleanup']:
+                continue
+            for st in blk['stmts']:
+                if st['k'] == 'assign' and st['place']['l'] == local and not st['place']['p']:
+                    defs.append(st)
+            t = blk['term']
+            if t['k'] == 'call' and t['dest']['l'] == local:
+                return None, None
+        if len(defs) != 1 or defs[0]['rv']['k'] != 'use':
+            return None, None
+        src = defs[0]['rv']['op'].get('move')
+        if src is None or src['p']:
+            return None, None
+        local = src['l']
+    return None, None
+
+
 def desugar_once(body, bi, cb, kind):
     j = copy.deepcopy(body.j)
     t = j['blocks'][bi]['term']
@@ -440,11 +466,12 @@ def inline_closure_call(body, bi, crate):
     # the callee: the closure local itself or a reference to it taken in this block
     clo_local = a0['l']
     by_ref = False
-    for st in body.blocks[bi]['stmts']:
-        if st['k'] == 'assign' and st['place']['l'] == a0['l'] and not st['place']['p'] and st['rv']['k'] == 'ref' and not st['rv']['place']['p']:
-            clo_local = st['rv']['place']['l']
-            by_ref = True
-    path = _closure_of(body, clo_local)
+    refdefs = [st for blk in body.blocks if not blk['cleanup'] for st in blk['stmts']
+               if st['k'] == 'assign' and st['place']['l'] == a0['l'] and not st['place']['p']]
+    if len(refdefs) == 1 and refdefs[0]['rv']['k'] == 'ref' and not refdefs[0]['rv']['place']['p']:
+        clo_local = refdefs[0]['rv']['place']['l']
+        by_ref = True
+    path, root = _closure_root(body, clo_local)
     cb = crate.body(path) if path else None
     if cb is None:
         return None
@@ -476,21 +503,81 @@ def inline_closure_call(body, bi, crate):
     tt['args'] = [arg0] + [copy.deepcopy(f) for f in fields]
     tt['func'] = {'path': cb.path, 'full': cb.path, 'name': 'call', 'gargs': []}
     nb = Body(j, body.crate)
-    return inline_once(nb, bi, cb, closure_local=clo_local), path
+    return inline_once(nb, bi, cb, closure_local=root), path
 
 
 MAPS = {'std::result::Result::<T, E>::map': ('std::result::Result', 'Ok', 0, 'Err', 1),
         'std::option::Option::<T>::map': ('std::option::Option', 'Some', 1, 'None', 0)}
 
 
-def desugar_map(body, bi, cb, spec):
-    """x.map(|v| F(v))  ==  match x { Ok(v) => Ok(F(v)), Err(e) => Err(e) }   (Option alike)"""
+TRY_BRANCH = 'std::ops::Try::branch'
+
+
+def desugar_try_branch(body, bi):
+    """`match Try::branch(x) { Continue(v) => .., Break(r) => return from_residual(r) }` on a Result / Option x:
+    branch(x) is written out as  match x { Ok(v) => Continue(v), Err(e) => Break(Err(e)) }  so that a literal Err / Ok
+    assigned to x upstream decides the arm (jump threading, literal-merge splitting)"""
+    t = body.blocks[bi]['term']
+    xp = t['args'][0].get('move') or t['args'][0].get('copy')
+    if xp is None or xp['p'] or t['dest']['p'] or t['target'] is None:
+        return None
+    xty = body.local_ty(xp['l'])
+    if xty.startswith('std::result::Result<'):
+        adt, keep, keep_idx, other, other_idx = 'std::result::Result', 'Ok', 0, 'Err', 1
+    elif xty.startswith('std::option::Option<'):
+        adt, keep, keep_idx, other, other_idx = 'std::option::Option', 'Some', 1, 'None', 0
+    else:
+        return None
+    j = copy.deepcopy(body.j)
+    span = j['blocks'][bi]['tspan']
+    x, dest, target = xp['l'], t['dest'], t['target']
+
+    def new_local(ty):
+        j['locals'].append({'ty': ty, 'name': None, 'mut': True})
+        return len(j['locals']) - 1
+
+    def blk(stmts, term):
+        j['blocks'].append({'stmts': stmts, 'term': term, 'tspan': span, 'cleanup': False})
+        return len(j['blocks']) - 1
+    d = new_local('isize')
+    v = new_local('unknown')
+    r = new_local(xty)
+    CF = 'std::ops::ControlFlow'
+    j['blocks'][bi]['stmts'].append({'k': 'assign', 'place': {'l': d, 'p': []}, 'rv': {'k': 'discr', 'place': {'l': x, 'p': []}}, 'span': span})
+    n0 = len(j['blocks'])
+    j['blocks'][bi]['term'] = {'k': 'switch', 'discr': {'move': {'l': d, 'p': []}}, 'targets': [[str(keep_idx), n0], [str(other_idx), n0 + 1]], 'otherwise': n0 + 1}
+    blk([{'k': 'assign', 'place': {'l': v, 'p': []}, 'rv': {'k': 'use', 'op': {'move': {'l': x, 'p': [{'down': keep_idx, 'name': keep}, {'f': 0, 'name': '0', 'ty': 'unknown'}]}}}, 'span': span},
+         {'k': 'assign', 'place': dest, 'rv': {'k': 'agg', 'agg': 'adt', 'adt': CF, 'variant': 0, 'variant_name': 'Continue', 'field_names': ['0'],
+                                              'fields': [{'move': {'l': v, 'p': []}}]}, 'span': span}],
+        {'k': 'goto', 'target': target})
+    if other == 'None':
+        res_rv = {'k': 'agg', 'agg': 'adt', 'adt': adt, 'variant': other_idx, 'variant_name': other, 'field_names': [], 'fields': []}
+        pre = []
+    else:
+        e = new_local('unknown')
+        pre = [{'k': 'assign', 'place': {'l': e, 'p': []}, 'rv': {'k': 'use', 'op': {'move': {'l': x, 'p': [{'down': other_idx, 'name': other}, {'f': 0, 'name': '0', 'ty': 'unknown'}]}}}, 'span': span}]
+        res_rv = {'k': 'agg', 'agg': 'adt', 'adt': adt, 'variant': other_idx, 'variant_name': other, 'field_names': ['0'], 'fields': [{'move': {'l': e, 'p': []}}]}
+    blk(pre + [{'k': 'assign', 'place': {'l': r, 'p': []}, 'rv': res_rv, 'span': span},
+               {'k': 'assign', 'place': dest, 'rv': {'k': 'agg', 'agg': 'adt', 'adt': CF, 'variant': 1, 'variant_name': 'Break', 'field_names': ['0'],
+                                                    'fields': [{'move': {'l': r, 'p': []}}]}, 'span': span}],
+        {'k': 'goto', 'target': target})
+    return Body(j, body.crate)
+
+
+MAP_ORS = {'std::result::Result::<T, E>::map_or': ('std::result::Result', 'Ok', 0, 'Err', 1),
+           'std::option::Option::<T>::map_or': ('std::option::Option', 'Some', 1, 'None', 0)}
+
+
+def desugar_map(body, bi, cb, spec, default=False):
+    """x.map(|v| F(v))  ==  match x { Ok(v) => Ok(F(v)), Err(e) => Err(e) }   (Option alike);
+    with default=True:  x.map_or(d, |v| F(v))  ==  match x { Ok(v) => F(v), _ => d }  (d is already evaluated)"""
     adt, keep, keep_idx, other, other_idx = spec
     j = copy.deepcopy(body.j)
     t = j['blocks'][bi]['term']
     span = j['blocks'][bi]['tspan']
     target, dest = t['target'], t['dest']
-    a_x, a_clo = t['args'][0], t['args'][1]
+    a_x, a_clo = t['args'][0], t['args'][2 if default else 1]
+    a_def = t['args'][1] if default else None
     clo_local = (a_clo.get('move') or a_clo.get('copy'))['l']
     env_ty, v_ty = cb.locals[1]['ty'], cb.locals[2]['ty']
 
@@ -526,6 +613,11 @@ def desugar_map(body, bi, cb, spec):
     blk([assign(v, {'k': 'use', 'op': {'move': payload}}), assign(env, env_rv)],
         {'k': 'call', 'func': {'path': cb.path, 'full': cb.path, 'name': 'call', 'gargs': []},
          'args': [{'move': {'l': env, 'p': []}}, {'move': {'l': v, 'p': []}}], 'dest': {'l': r, 'p': []}, 'target': n_wrap, 'unwind': None})
+    if default:
+        blk([{'k': 'assign', 'place': dest, 'rv': {'k': 'use', 'op': {'move': {'l': r, 'p': []}}}, 'span': span}], {'k': 'goto', 'target': target})
+        blk([{'k': 'assign', 'place': dest, 'rv': {'k': 'use', 'op': a_def}, 'span': span}], {'k': 'goto', 'target': target})
+        nb = Body(j, body.crate)
+        return inline_once(nb, n_keep, cb, closure_local=clo_local if env_ty.startswith('&') else None)
     blk([{'k': 'assign', 'place': dest, 'rv': {'k': 'agg', 'agg': 'adt', 'adt': adt, 'variant': keep_idx, 'variant_name': keep,
                                               'field_names': ['0'], 'fields': [{'move': {'l': r, 'p': []}}]}, 'span': span}],
         {'k': 'goto', 'target': target})
@@ -573,6 +665,16 @@ def desugar_adaptors(body, crate, max_rounds=16):
                 cb = crate.body(path) if path else None
                 if cb is not None and cb.arg_count == 2:
                     cur = desugar_map(cur, bi, cb, MAPS[t['func']['path']])
+                    used.add(path)
+                    did = True
+                    break
+                continue
+            if t['func'].get('path') in MAP_ORS and len(t['args']) == 3 and t['target'] is not None:
+                cp = t['args'][2].get('move') or t['args'][2].get('copy')
+                path = _closure_of(cur, cp['l']) if cp is not None and not cp['p'] else None
+                cb = crate.body(path) if path else None
+                if cb is not None and cb.arg_count == 2:
+                    cur = desugar_map(cur, bi, cb, MAP_ORS[t['func']['path']], default=True)
                     used.add(path)
                     did = True
                     break
@@ -743,14 +845,45 @@ def find_literal_merge(fn, skip=frozenset()):
     return None
 
 
-def split_decisions(body, max_splits=2, max_blocks=2500):
+def desugar_try_branches(body):
+    """every `Try::branch(x)` on a Result / Option written out as a match (see desugar_try_branch)"""
+    cur = body
+    for _ in range(32):
+        did = False
+        for bi, t in list(cur.calls()):
+            if t['func'].get('path') == TRY_BRANCH and len(t['args']) == 1:
+                nb = desugar_try_branch(cur, bi)
+                if nb is not None:
+                    cur = nb
+                    did = True
+                    break
+        if not did:
+            break
+    return cur
+
+
+def split_literal_results(body):
+    """for functions that are not planner entry points: when a Result / Option literal (the `return Err(X)` of an inlined
+    helper, a `break Err(..)`) flows into a `?`, write the `?` out and duplicate the tail per literal so that each copy
+    takes the arm its literal decides; None when the function has no such merge"""
+    from .engine import Fn
+    if not any(t['func'].get('path') == TRY_BRANCH for _bi, t in body.calls()):
+        return None
+    nb = desugar_try_branches(body)
+    if nb is body or find_literal_merge(Fn(nb)) is None:
+        return None
+    out = split_decisions(nb, max_splits=3, literal_only=True)
+    return out if out is not nb else None
+
+
+def split_decisions(body, max_splits=2, max_blocks=2500, literal_only=False):
     from .engine import Fn
     cur = body
     nsplit = 0
     skip = set()
     for _ in range(max_splits):
         fn = Fn(cur)
-        hit = find_decision_join(fn, frozenset(skip))
+        hit = find_decision_join(fn, frozenset(skip)) if not literal_only else None
         if hit is None:
             lm = find_literal_merge(fn, frozenset(skip))
             if lm is None:
@@ -923,9 +1056,10 @@ def fold_constant_switches(body, known=(), rounds=6):
                 val = n[1]
             elif n[0] == 'discr' and len(n[1]) == 1:
                 a = next(iter(n[1]))
-                if a[0] == 'agg' and a[1] in ('std::result::Result', 'std::option::Option', 'core::result::Result', 'core::option::Option') and \
-                        a[2] in ('Ok', 'Err', 'None', 'Some'):
-                    val = {'Ok': '0', 'Err': '1', 'None': '0', 'Some': '1'}[a[2]]
+                if a[0] == 'agg' and a[1] in ('std::result::Result', 'std::option::Option', 'core::result::Result', 'core::option::Option',
+                                              'std::ops::ControlFlow', 'core::ops::ControlFlow') and \
+                        a[2] in ('Ok', 'Err', 'None', 'Some', 'Continue', 'Break'):
+                    val = {'Ok': '0', 'Err': '1', 'None': '0', 'Some': '1', 'Continue': '0', 'Break': '1'}[a[2]]
                 elif a[0] == 'agg':
                     adt = cur.crate.adts.get(a[1])
                     if adt is not None and adt.get('is_enum'):
@@ -954,8 +1088,14 @@ def fold_constant_switches(body, known=(), rounds=6):
             j['blocks'][b]['term'] = {'k': 'goto', 'target': tgt}
         if j is None:
             break
-        cur = Body(j, body.crate)
-    # empty the blocks that became unreachable
+        cur = _empty_dead(Body(j, body.crate))
+    return _empty_dead(cur)
+
+
+def _empty_dead(cur):
+    """empty the blocks that became unreachable (a dead block must not stay a predecessor: its definitions would still
+    reach the join it used to enter)"""
+    from .engine import Fn
     fn = Fn(cur)
     reach = fn.reachable(0)
     dead = [b for b in range(len(cur.blocks)) if b not in reach and not cur.blocks[b]['cleanup'] and
@@ -965,7 +1105,7 @@ def fold_constant_switches(body, known=(), rounds=6):
         for b in dead:
             j['blocks'][b]['stmts'] = []
             j['blocks'][b]['term'] = {'k': 'unreachable'}
-        cur = Body(j, body.crate)
+        cur = Body(j, cur.crate)
     return cur
 
 
